@@ -1,35 +1,44 @@
-(* C13 - non-vacuity instances (proved here so that Prop*.v need not load the interval tactic). *)
+(* C13 - non-vacuity instances (exact, no numerical tactic). *)
 From Coq Require Import Reals List Lra.
 From Coq Require Import QArith Qcanon.
 From Coquelicot Require Import Complex.
-From Interval Require Import Tactic.
 From AL Require Import Base.CaseLib C13.Model C13.Spec C13.Check C13.Proofs_Base C13.Proofs_Ord1 C13.Proofs_LPHP
   C13.Proofs_LPHP2 C13.Proofs_Ord2 C13.Proofs_Reson2 C13.Proofs_Comb.
 Import ListNotations.
 Open Scope R_scope.
 
+Lemma half_pi_inside : 0 < PI / 2 < PI.
+Proof. pose proof PI_RGT_0. split; lra. Qed.
+
+Lemma lowpass_pole_R_half_pi : lowpass_pole_R (PI / 2) = 2 - sqrt 3.
+Proof.
+  unfold lowpass_pole_R, lowpass_pole_x. cbv zeta. rewrite cos_PI2.
+  replace ((2 - 0) ^ 2 - 1) with 3 by ring. ring.
+Qed.
+
+(* the whole quantifier domain satisfies the hypothesis; at wc = pi/2 the pole strategy has
+   R = 2 - sqrt 3 and half power; the z strategies hit their special case cos wc = 0 there (R = 0) *)
 Lemma lphp_instances :
   (forall wc, 1 / 1000 <= wc <= PI - 1 / 1000 -> 0 < wc < PI) /\
-  (Rabs (lowpass_pole_R 1 - 0.396346) <= 0.000001 /\ half_power_at (lowpass_pole 1) 1 /\
-   Rabs (sqrt (1 / 2) - 0.707107) <= 0.000001) /\
+  (0 < PI / 2 < PI /\ lowpass_pole_R (PI / 2) = 2 - sqrt 3 /\ half_power_at (lowpass_pole (PI / 2)) (PI / 2)) /\
   (cos (PI / 2) = 0 /\ lowpass_z_R (PI / 2) = 0 /\ half_power_at (lowpass_z (PI / 2)) (PI / 2)).
 Proof.
   split; [intros wc [H0 H1]; split; lra|]. split.
-  - split; [unfold lowpass_pole_R, lowpass_pole_x; interval with (i_prec 60)|]. split; [|interval with (i_prec 60)].
-    apply lowpass_pole_half_power. split; [lra|interval with (i_prec 60)].
+  - split; [exact half_pi_inside|]. split; [exact lowpass_pole_R_half_pi|].
+    apply lowpass_pole_half_power. exact half_pi_inside.
   - split; [apply cos_PI2|]. split; [apply lowpass_z_R_half_pi|].
-    apply lowpass_z_half_power. pose proof PI_RGT_0. split; lra.
+    apply lowpass_z_half_power. exact half_pi_inside.
 Qed.
 
+(* freq = pi/2, bandwidth = 1/5 satisfies every resonator hypothesis including |cost| <= 1 (cost = 0);
+   comb.fb(2, 1/2) on an impulse and comb.ff(1, -1/3) on [1, 2, 3] *)
 Lemma reson_comb_instances :
-  (0 < 7 / 10 < PI /\ 0 < 1 / 5 /\ -1 <= z_exp_cost (7 / 10) (1 / 5) <= 1 /\
-   Rabs (resonator_R (1 / 5) - 0.904837) <= 0.000001) /\
+  (0 < PI / 2 < PI /\ 0 < 1 / 5 /\ -1 <= z_exp_cost (PI / 2) (1 / 5) <= 1) /\
   run (comb_fb 2 (qc 1 2)) [qc 1 1; qc 0 1; qc 0 1; qc 0 1; qc 0 1] = [qc 1 1; qc 0 1; qc 1 2; qc 0 1; qc 1 4] /\
   run (comb_ff 1 (qc (-1) 3)) [qc 1 1; qc 2 1; qc 3 1] = [qc 1 1; qc 5 3; qc 7 3].
 Proof.
   split.
-  - unfold z_exp_cost, resonator_R. cbv zeta.
-    split; [split; [lra|interval with (i_prec 60)]|]. split; [lra|].
-    split; [split; interval with (i_prec 60)|interval with (i_prec 60)].
+  - split; [exact half_pi_inside|]. split; [lra|].
+    unfold z_exp_cost. cbv zeta. rewrite cos_PI2. unfold Rdiv. rewrite !Rmult_0_l. lra.
   - split; apply (proj1 (list_eqb_spec Qc_eqb Qc_eqb_spec _ _)); vm_compute; reflexivity.
 Qed.
